@@ -158,6 +158,10 @@ func c09Sub(c *core.Ctx, t *tape.Tape, cfg gCfg, faults bool, cut int, kind stri
 	g.drain(faults)
 
 	if kind == "restart" {
+		if open := g.W.OpenTCPConns(); len(open) > 0 {
+			c.Failf("C09/tcp-connection-open-after-restart", "%s: %d outgoing TCP connection(s) of the ended generation still open", where, len(open))
+			return steps, false
+		}
 		if open := g.agentSockets(true); len(open) > 0 {
 			c.Failf("C09/socket-open-after-restart", "%s: %d socket(s) of the ended generation still open after the superseded gathering wound down: %v",
 				where, len(open), describeSocks(open))
@@ -180,6 +184,13 @@ func c09Sub(c *core.Ctx, t *tape.Tape, cfg gCfg, faults bool, cut int, kind stri
 	if open := g.agentSockets(true); len(open) > 0 {
 		c.Failf("C09/socket-reopened-after-close", "%s: %d socket(s) open after the closed agent's gatherers wound down: %v", where, len(open), describeSocks(open))
 		return steps, false
+	}
+	if open := g.W.OpenTCPConns(); len(open) > 0 {
+		c.Failf("C09/tcp-connection-open-after-close", "%s: %d outgoing TCP connection(s) (TURN over TCP) still open after Close: %v -> %v", where, len(open), open[0].LocalAddr(), open[0].RemoteAddr())
+		return steps, false
+	}
+	if len(g.W.TCPConns) > 0 {
+		c.Probe("turn-over-tcp-connection")
 	}
 	for i, cl := range g.turn.Snapshot() {
 		if cl.CloseCalls == 0 {
